@@ -38,6 +38,9 @@ CORPUS = [
     'int f(int x,int y){ assert(x < 1); assume(y); while (x) { assert(x); x = x + y; } }', 'int f(int x){ assert(x < 1) ; g(x); assume(g(x)); }',
     'int f(int i,int n,int x){ while (i < n) a[i] = 0; for (i = 0; i < n; i++) a[i] = x; do g(x); while (x < 1); }',
     'int f(int i,int n){ while (i < n) { } do { } while (i < n); for (i = 0; i < n; i++) { } while (i) ; }',
+    # nested loops whose failing choices leave a gap in the lengths of the delta graph's tuples
+    'int f(int a,int b,int d){ while (a < b) { a = b + b; while (a < b) { d = b + a; } d = b + d; } }',
+    'int f(int a,int b,int c,int d){ while (a < b) { while (c < d) { c = c + d; } a = b + c; d = a + b; b = d + c; } }',
     'int f(int *p, int i){ (*p)[i]; }', 'int f(int *p, int i){ return (*p)[i]; }',
     'int f(int *p, int i){ while (i) { (p + 1)[i]; } }', 'int f(int i){ s.arr[i] = 1; (&s)->arr[i] = 2; }',
     'int f(int x){ x = ((int*)x)[0]; }', 'int f(int x,int y){ y = (int)(long)x + 1; y = -(long)(int)x; }',
